@@ -378,7 +378,7 @@ def job_api(cfg):
     world.reset()
     fam = cfg['family']
     seedv = cfg.get('seed', 0)
-    r = make_rig(cfg, 'udp', fill=lambda a: (a * 7919 + seedv * 31 + 3) & 0x7FFF)
+    r = make_rig(cfg, cfg.get('transport', 'udp'), fill=lambda a: (a * 7919 + seedv * 31 + 3) & 0x7FFF, ka=cfg.get('ka', False))
     inv = r.inv
     if r.call(inv.read_device_info)[0] != 'ok':
         return 0, [dict(key=f'api/{fam}/device-info', clause='device info readable', n=1, replay=dict(kind='api', cfg=cfg), detail={})]
@@ -411,7 +411,8 @@ def job_api(cfg):
                     v = refdec.decode(s, r.dev.rf.getbytes(s.offset, 2))
                     hidden[s.id_] = None if v is refdec.NOVALUE else v
         for name, cause in relations(fam, inv, st[1], hidden):
-            key = f'api:{name}/{fam}' + (f"/after-configuring:{cfg['neighbour']}" if cfg.get('neighbour') else '')
+            key = f'api:{name}/{fam}' + (f"/after-configuring:{cfg['neighbour']}" if cfg.get('neighbour') else '') + \
+                (f"/{cfg['transport']}" + ('+keep-alive' if cfg.get('ka') else '') if cfg.get('transport') else '')
             vio.setdefault(key, []).append(dict(key=key, clause=name, replay=dict(kind='api', cfg=cfg, assign=assign),
                                                 detail=dict(cause=cause, registers=assign, model=cfg['tag'], rated=cfg['power'])))
     if fam == 'ES':
@@ -462,7 +463,11 @@ def api_configs(tier, seed):
             continue
         seen.add(k)
         out.append(dict(c, seed=seed))
-    return out + [dict(c, seed=seed) for c in refusing]
+    # ... and the other ways an object can be configured: Modbus/TCP (port 502), keep-alive on
+    other = [dict(family='ET', tag=t, power=p, refused=(), battery_mode=2, transport=tr, ka=ka)
+             for t, p in (('ETU', 10000), ('ETT', 25000)) for tr, ka in (('tcp', False), ('tcp', True), ('udp', True))] + \
+            [dict(family='DT', tag='DTU', power=5000, refused=(), battery_mode=0, transport='tcp', ka=False)]
+    return out + [dict(c, seed=seed) for c in refusing + other]
 
 
 def api_configs_with_neighbours(tier, seed):
